@@ -12,6 +12,10 @@ def run(tier, seed):
     steps = 5 if thorough else 4
     mc = vlib.must_hold(vlib.tlc("JsonMemory", "MC_JsonMemory.cfg", workers=8, defines={"MaxSteps": steps}), "JsonMemory invariants")
     ck.add_mc(mc, "MC_JsonMemory")
+    w = vlib.tlc("JsonMemory", "MC_JsonMemoryAtEnd.cfg", workers=2, expect_violation=True)
+    if w.ok or w.violation != "NeverPoolOrDecBuf":
+        raise vlib.Infra("JsonMemory with values decoded in place at the end of the buffered data should violate NeverPoolOrDecBuf: the model is vacuous")
+    ck.add_mc(w, "MC_JsonMemoryAtEnd(vacuity witness)")
     vec = vlib.vecpath(PROP, "gen")
     with open(vec, "w") as sink:
         g = vlib.must_hold(vlib.tlc("JsonMemory", "Gen_JsonMemory.cfg", workers=8, sink=sink, defines={"MaxSteps": steps}, timeout=3000), "histories")
@@ -27,8 +31,9 @@ def run(tier, seed):
     ck.triage(rr.divs, rerun=rr.again)
     os.unlink(vec)
     ck.exhaustive = True
-    ck.rule = ("TLC enumerates every history of %d steps over marshal / unmarshal(input, zero-copy or not) / decode / tokstring / overwrite(input) / "
-               "churn with 2 lent inputs and predicts after each step which results may have changed; each history is executed on the real package "
+    ck.rule = ("TLC enumerates every history of %d steps over marshal / unmarshal(input, zero-copy or not) / decode(kind of target; the value ends inside "
+               "the Decoder's buffered data, or exactly where it ends while more input is to come - the harness cuts the stream into pieces accordingly) / "
+               "tokstring / overwrite(input) / churn with 2 lent inputs and predicts after each step which results may have changed; each history is executed on the real package "
                "with snapshots of every result (strings, Numbers, RawMessages, []byte, map keys, interface contents, Encoder output) and of every "
                "lent input; plus, for every type shape of spec/JsonTypes.tla (depth 2, all kinds) and each of its documents (valid, mutated, null at "
                "every position, quoted numbers with leading zeros and escapes) and values: the lent input is unchanged after Parse (flag subsets) / "
